@@ -174,6 +174,16 @@ impl Gen {
             let len = *self.rng.pick(&[65535u32, 65536, 65537, 65535 + 4096, 131072, 70000]) + if self.rng.chance(500) { 0 } else { self.rng.below(3000) as u32 };
             return long_string(self.serial, len);
         }
+        // text that *starts* with the bytes of a byte-order mark in some code
+        // page (FF FE, EF BB BF) is ordinary text there
+        if matches!(cat, None | Some("Text")) && (w == 0 || w >= 16) && self.rng.chance(15) {
+            for lead in ["ÿþ", "þÿ", "ï»¿"] {
+                if lead.chars().all(|c| self.alphabet.contains(&c)) && self.rng.chance(500) {
+                    let tok = self.token(false);
+                    return format!("{}{}", lead, tok);
+                }
+            }
+        }
         let lower = cat == Some("LowerCase");
         let tok = self.token(lower);
         let tl = tok.chars().count();
@@ -856,6 +866,14 @@ impl Gen {
         if self.rng.chance(40) {
             // deliberately unrepresentable in some pages
             s.push(*self.rng.pick(&['☃', '€', 'ж', '漢']));
+        }
+        if self.rng.chance(30) {
+            for lead in ["ÿþ", "þÿ", "ï»¿"] {
+                if lead.chars().all(|c| self.alphabet.contains(&c)) && self.rng.chance(500) {
+                    s = format!("{}{}", lead, s);
+                    break;
+                }
+            }
         }
         s
     }
